@@ -30,6 +30,8 @@ class Rel8Domain:
         self.rets = {}          # inlined helper: return constant (None = not constant) -> state
         self.callres = {}       # id(call node) -> {return constant: state}
         self.depth = parent.depth + 1 if parent else 0
+        self.cons_alias = set()   # ids of locals that hold a copy of the constant field
+        self.cond_def = {}        # id of a local -> the condition over the constant it was initialised with
 
     def _decides(self, name):
         """a helper of the line parser that takes the record and reads the decision fields: interpreted in place"""
@@ -64,10 +66,42 @@ class Rel8Domain:
     def equal(self, a, b): return a == b
     def widen(self, o, n): return n
 
+    def _is_cons(self, e):
+        e0 = strip(e, casts=True)
+        if _member(e0, "cons"):
+            return True
+        return e0.get("kind") == "DeclRefExpr" and (e0.get("referencedDecl") or {}).get("id") in self.cons_alias
+
     def decl(self, vd, s):
         for c in kids(vd):
             s = self.eval(c, s)
+        if kids(vd) and "const" in (vd.get("type") or {}).get("qualType", ""):
+            init = kids(vd)[-1]
+            i0 = strip(init, casts=True)
+            if self._is_cons(i0):
+                self.cons_alias.add(vd["id"])             # `const unsigned long target = x->cons;`
+            elif i0.get("kind") in ("BinaryOperator", "UnaryOperator", "ParenExpr") and self._over_cons_only(i0):
+                self.cond_def[vd["id"]] = init            # `const bool fits = target <= 0x7f || ...;` a condition over the constant only
         return s
+
+    def _over_cons_only(self, e):
+        """does the expression read nothing but the constant field (or copies of it) and literals"""
+        for m in walk(e):
+            k = m.get("kind")
+            if k == "CallExpr":
+                return False
+            if k == "MemberExpr" and m.get("name") != "cons":
+                return False
+            if k == "DeclRefExpr" and (m.get("referencedDecl") or {}).get("kind") in ("VarDecl", "ParmVarDecl"):
+                if (m.get("referencedDecl") or {}).get("id") not in self.cons_alias and not self._is_record_base(m):
+                    return False
+        return True
+
+    @staticmethod
+    def _is_record_base(m):
+        """the record pointer itself (`instr_data` in `instr_data->cons`)"""
+        t = (m.get("type") or {}).get("qualType", "")
+        return "struct instr" in t
 
     def eval(self, e, s):
         e0 = strip(e)
@@ -100,6 +134,8 @@ class Rel8Domain:
                         out.add(tuple(t))
                 return frozenset(out)
             if _member(l, "cons"):
+                self.cons_alias.clear()      # copies and named conditions taken before the constant changed say nothing about it now
+                self.cond_def.clear()
                 c = self.ce.try_eval(ks[1])
                 if e0.get("opcode") == "&=" and c is not None and c & (c + 1) == 0:
                     return frozenset(((lo, hi) if hi <= c else (0, c)) + (sh, lg, cf) for (lo, hi, sh, lg, cf) in s)
@@ -118,6 +154,9 @@ class Rel8Domain:
                 if c is None or bool(c) == truth:
                     out = st if out is None else out | st
             return out or None
+        if k == "DeclRefExpr" and (e0.get("referencedDecl") or {}).get("id") in self.cond_def:
+            # a named condition over the constant: decide it where it is used (the constant has not changed since: see eval)
+            return Flow(self).cond(self.cond_def[e0["referencedDecl"]["id"]], truth, s)
         if k == "MemberExpr" and e0.get("name") == "imm" and not truth:
             # no immediate operand: the constant field still holds its zero initialiser
             out = frozenset((0, 0, sh, lg, cf) for (lo, hi, sh, lg, cf) in s if lo <= 0)
@@ -129,10 +168,10 @@ class Rel8Domain:
         if k == "BinaryOperator" and e0.get("opcode") in ("<", ">", "<=", ">=", "==", "!="):
             l, r = kids(e0)
             op = e0["opcode"]
-            if _member(r, "cons") and not _member(l, "cons"):
+            if self._is_cons(r) and not self._is_cons(l):
                 l, r = r, l
                 op = {"<": ">", ">": "<", "<=": ">=", ">=": "<="}.get(op, op)
-            if _member(l, "cons"):
+            if self._is_cons(l):
                 c = self.ce.try_eval(r)
                 if c is not None:
                     c &= U64
